@@ -54,12 +54,15 @@ class Stats:
         self.transitions = 0
         self.max_depth = 0
         self.fixpoint = True
+        self.capped = False
         self.violations = []  # (history, what)
         self.sample_histories = []
 
 
-def explore(product, max_depth=None, max_violations=5, stats=None, keep_samples=2):
-    """Breadth-first search to a fixpoint (or to max_depth)."""
+def explore(product, max_depth=None, max_violations=5, stats=None, keep_samples=2, max_states=None):
+    """Breadth-first search to a fixpoint (or to max_depth).  The search stops as soon as max_violations disagreements
+    are recorded, and - for an implementation whose hidden state never closes - at max_states product states (then
+    Stats.fixpoint is False and Stats.capped True: the caller reports a bounded search, not a fixpoint)."""
     st = stats or Stats()
     root = product.fresh()
     seen = {product.key(root)}
@@ -80,11 +83,18 @@ def explore(product, max_depth=None, max_violations=5, stats=None, keep_samples=
             if bad:
                 if len(st.violations) < max_violations:
                     st.violations.append((list(hist) + [op], bad))
+                if len(st.violations) >= max_violations:
+                    st.fixpoint = False
+                    return st
                 continue  # do not explore beyond a disagreement
             k = product.key(cur)
             if k not in seen:
                 seen.add(k)
                 st.states += 1
+                if max_states is not None and len(seen) >= max_states:
+                    st.fixpoint = False
+                    st.capped = True
+                    return st
                 depth = len(hist) + 1
                 st.max_depth = max(st.max_depth, depth)
                 if max_depth is None or depth < max_depth:
